@@ -31,6 +31,11 @@ def families(cfg, depths):
         "comment-lines": lambda n: b";x\n" * n + b"1",
         "strings": lambda n: b"[" + b"\"a\\\\\" " * n + b"]",
         "closers": lambda n: b"]" * n,
+        # hashing / equality work on nested values: a collection above the 16-element cut-over holding one value nested n deep
+        "hashed-nested-tags": lambda n: b"#{" + b" ".join(b"%d" % i for i in range(16)) + b" " + b"#t " * min(n, 98) + b"16}",
+        "hashed-nested-vectors": lambda n: b"#{" + b" ".join(b"%d" % i for i in range(16)) + b" " + b"[" * min(n, 98) + b"16" + b"]" * min(n, 98) + b"}",
+        "hashed-nested-maps": lambda n: b"{" + b" ".join(b"%d %d" % (i, i) for i in range(16)) + b" " + b"{:k " * min(n, 98) + b"16" + b"}" * min(n, 98) + b" 1}",
+        "equal-nested-pair": lambda n: b"#{" + b"[" * min(n, 98) + b"1" + b"]" * min(n, 98) + b" " + b"(" * min(n, 98) + b"2" + b")" * min(n, 98) + b"}",
     }
     if clj:
         fam["meta"] = lambda n: b"^a " * n + b"[]"
